@@ -119,3 +119,28 @@ fn c05_rc4_filter_roundtrip() {
     kani::cover!(true);
     std::mem::forget((e, d));
 }
+
+/// Algorithm 1.A (AESV3): the 32-byte file encryption key is used as is for every object.
+#[kani::proof]
+#[kani::unwind(34)]
+fn c06_alg1a_aes256_key() {
+    let key: [u8; 32] = kani::any();
+    let num: u32 = kani::any();
+    let gen: u16 = kani::any();
+    verif::reset();
+    let r = Aes256CryptFilter.compute_key(&key, (num, gen));
+    assert!(verif::count() == 0, "Algorithm 1.A uses no MD5");
+    match &r {
+        Ok(k) => {
+            assert!(k.len() == 32);
+            let mut i = 0;
+            while i < 32 {
+                assert!(k[i] == key[i], "AESV3 object key must be the file encryption key");
+                i += 1;
+            }
+        }
+        Err(_) => panic!("compute_key failed"),
+    }
+    kani::cover!(true);
+    std::mem::forget(r);
+}
